@@ -21,6 +21,9 @@ func stageTypeCell(raw json.RawMessage) Result {
 		Src    any   `json:"src"`
 		Accept bool  `json:"accept"`
 		Out    []any `json:"out"`
+		// Either: the documentation does not settle whether the cell is accepted; what is claimed is that the
+		// parser gives a verdict (a program or located errors, no crash) and that an accepted cell runs
+		Either bool `json:"either"`
 	}
 	if err := json.Unmarshal(raw, &c); err != nil {
 		return Result{OK: false, Diff: "harness: " + err.Error()}
@@ -34,8 +37,18 @@ func stageTypeCell(raw json.RawMessage) Result {
 			return Result{OK: false, Obs: obs, Diff: "parser returned an error that is not a non-empty parser.Errors: " + err.Error()}
 		}
 		obs["parseErr"] = firstLine(err.Error())
+		if c.Either {
+			return Result{OK: true, Obs: obs}
+		}
 		if c.Accept {
 			return Result{OK: false, Obs: obs, Diff: "specification accepts this cell, parser rejects it: " + firstLine(err.Error())}
+		}
+		return Result{OK: true, Obs: obs}
+	}
+	if c.Either {
+		o := execute(src, nil, nil, 0, false, false, 1)
+		if strings.HasPrefix(o.Result, "internal") || strings.HasPrefix(o.Result, "unknown") {
+			return Result{OK: false, Obs: obs, Diff: "accepted cell goes wrong when run: " + o.Result}
 		}
 		return Result{OK: true, Obs: obs}
 	}
